@@ -560,3 +560,9 @@ void vf_harness(void) { const char* fmt; int L; g_L = L; /* (visible in traces) 
     planted=[('String_f', r'n >= space\) && \+\+i', 'n > space) && ++i')],
 )
 UNITS += [string_f]
+
+# replay: where the trace recipe of a unit does not reproduce (or there is none) the driver's battery runs on the real library: asl::String against std::string for lengths
+# straddling 15/16, 20/24, 255/256 and 1 KiB - construction, +=, append/assign (also of own pieces), substring/substr, resize, formatting, search, split/join, replace, trim, integers
+_bat = replay.battery('C03/driver.cpp', ['battery'])
+for _u in UNITS:
+    _u.replay = replay.first_of(_u.replay, _bat) if _u.replay else _bat
